@@ -143,6 +143,14 @@ class TraceCorr:
                           "a hooked field changed); " + cname,
                           {"broken": cname, "build_log": blog[-3000:]}, concrete=False)
             return False
+        if self.work.blackbox:
+            # the white-box hooks no longer compile: the model-mode correspondence is broken; go on black-box
+            res.obligation("white-box hooks of %s compile against the current tree" % self.name, False,
+                           log=self.work.hook_log[-1500:])
+            if not getattr(res, "broken_proof", None):
+                res.broken_proof = {"obligation": "white-box correspondence hooks (an unexported field they read changed)",
+                                    "errors": [self.work.hook_log[-1500:]]}
+            proofs_ok = False
         ops, trace, stats = (os.path.join(self.dir, x) for x in ("ops.txt", "trace.txt", "stats.json"))
         rc, log = core.sh([self.bin, "-mode", "gen", "-tier", self.tier, "-out", ops] + self.gen_args, env=self.env,
                           timeout=self.timeout)
@@ -178,7 +186,10 @@ class TraceCorr:
         cov["samples"] += trace_lines[:6] + trace_lines[n // 2:n // 2 + 3]
 
         verdict_m = os.path.join(self.dir, "verdict.model")
-        bad_m = self._verdict("model", trace, verdict_m) if proofs_ok or os.path.exists(core.DRIVER) else ("skip", "")
+        if self.work.blackbox:
+            bad_m = ("skip", "")
+        else:
+            bad_m = self._verdict("model", trace, verdict_m) if proofs_ok or os.path.exists(core.DRIVER) else ("skip", "")
         if bad_m is None:
             res.obligation(cname, True, lines=n)
             if proofs_ok:
